@@ -1,7 +1,7 @@
 """C16 — typed wiring: no type/integrity-violating flow; modules run once, in order."""
 import copy
-import sys
-import time
+import ctypes
+import threading
 
 from . import common
 from .common import Check, Violation, cz, cnat, cbool, clist, ctuple
@@ -41,24 +41,22 @@ class _Abort(BaseException):
     pass
 
 
-def _self_destructing(fn, deadline_s):
-    """fn, run under a line tracer that aborts the calling thread once the deadline has passed,
-    so that an executor that loops for ever does not keep spinning after the watchdog gave up"""
-    def run():
-        deadline = time.monotonic() + deadline_s
-        n = [0]
+def _guarded(fn, timeout_s):
+    """common.call_with_watchdog(fn, timeout_s); when the watchdog gives up, an asynchronous exception is
+    raised in the worker thread so that an executor that loops for ever does not keep spinning.
+    (No sys.settrace here: a trace function of ours would displace the tracer of tools/impl_coverage.py
+    and hide everything execute() does from that diagnostic.)"""
+    ident = []
 
-        def tracer(frame, event, arg):
-            n[0] += 1
-            if n[0] & 255 == 0 and time.monotonic() > deadline:
-                raise _Abort()
-            return tracer
-        sys.settrace(tracer)
-        try:
-            return fn()
-        finally:
-            sys.settrace(None)
-    return run
+    def run():
+        ident.append(threading.get_ident())
+        return fn()
+    try:
+        return common.call_with_watchdog(run, timeout_s)
+    except common.Hang:
+        if ident:
+            ctypes.pythonapi.PyThreadState_SetAsyncExc(ctypes.c_ulong(ident[0]), ctypes.py_object(_Abort))
+        raise
 
 
 def _msg_code(msg, table, default):
@@ -114,7 +112,17 @@ class C16(Check):
             "mislabelled / missing / on wired ports / for unknown modules or ports; enforce_static_checks both ways. "
             "~75% mostly-valid (of which ~55% get 1-2 targeted mutations), ~25% malformed. Exhaustive: all 21x21 "
             "(source port type, destination port type) connects, all 21x21 (declared output type, returned label) and all "
-            "21x21 (declared input type, external label) pairs. non-trivial = at least one accepted wire or one handler "
+            "21x21 (declared input type, external label) pairs. About 55% of the generated cases additionally vary HOW the public "
+            "API is used, transparently to the model (no observation may change): other module/port names (shared between "
+            "inputs and outputs, alphabetical order reversed), WiringDiagram(modules=...) instead of add_module, ModuleSpec "
+            "defaults, add_module under a taken name before/after the connects (diagram must stay as it was), register_module "
+            "for an unknown module, executor built before the connects, handlers re-registered / registered in reverse order, "
+            "handlers returning None, execute() repeated on the same executor / on a second executor / preceded by an execute() "
+            "without external inputs (the property is monitored on every execution), external_inputs={} vs None, positional "
+            "arguments, required_capabilities() before and between the connects; PortType.can_flow_to and require_flow_to are "
+            "asked for every attempted connect with known ports. n//14 further cases put a wire into diagram.wires past connect "
+            "(type / integrity mismatch, unknown ports): outside the property (monitor: connects and capabilities only), they tie "
+            "the executor's per-wire runtime checks to the model. non-trivial = at least one accepted wire or one handler "
             "invocation; distinct by case content")
     LEVEL_TEXT = ("Coq theorems over all diagrams (any number of modules, ports, attempted wires), all handler oracles (raw, labelled, "
                   "mislabelled, raising, wrong key sets), all external inputs and both enforce_static_checks settings, about a "
@@ -131,9 +139,10 @@ class C16(Check):
     TRUSTED = ["modelled not verified: payloads are integers; handlers are deterministic functions of their input dict that do not "
                "mutate it and return a dict (or None) or raise; Python dict insertion order = list order; module and port names are "
                "modelled by their insertion index",
-               "wires are only created through WiringDiagram.connect (diagram.wires is not appended to directly); under that "
+               "the property (and its monitor) speaks of diagrams whose wires were created through WiringDiagram.connect; under that "
                "hypothesis the model's KeyError / per-wire 'Type mismatch' / 'Integrity violation' / 'Missing output' raises are "
-               "unreachable (first three: theorem c16_runtime_wire_checks_never_fire) and the correspondence never exercises them",
+               "unreachable (first three: theorem c16_runtime_wire_checks_never_fire). The correspondence exercises them on "
+               "additional cases that append to diagram.wires directly (the case's `forced` wires; never an unknown source module)",
                "compared observations use the exception class only (accepted / WiringError; report / WiringError / handler's own "
                "exception / other); WiringError messages are read only for the input-distribution histogram"]
     ASSUMPTIONS = ["module names are unique (add_module enforces it) and each dict (ports, handler result, external inputs) has unique keys",
@@ -405,7 +414,91 @@ class C16(Check):
                     tags.append("mut:none")
                 c["tags"] = tags
             out.append(c)
+        # additional cases (the n above stay what they were): wires forced into diagram.wires past connect
+        for k in range(max(8, n // 14)):
+            if k % 5 == 4:
+                c = self._gen_malformed(rng)
+                nn = len(c["mods"])
+                c["forced"] = [[rng.randrange(nn), rng.randrange(4), rng.randint(0, nn), rng.randrange(4)]
+                               for _ in range(rng.choice([1, 1, 2]))]
+                c["tags"] = ["stream:forced-wire", "forced:random"]
+            else:
+                c = self._gen_valid(rng)
+                t = self._force_wire(rng, c)
+                if not t:
+                    continue
+                c["tags"] = ["stream:forced-wire", t]
+            out.append(c)
+        # second pass (after all diagrams are drawn, so the diagrams themselves are those of earlier revisions): API variations
+        for c in out:
+            self._widen(rng, c)
         return out
+
+    def _force_wire(self, rng, c):
+        """a wire written into diagram.wires directly that connect would have refused, from a module that runs before the
+        destination (so that the executor gets as far as delivering along it)"""
+        mods = c["mods"]
+        acc = [w for w in accepted_wires(c) if len(mods[w[2]]["in"]) < 3 and w[0] != w[2]]
+        if not acc:
+            return None
+        s, _sp, d, _dp = rng.choice(acc)
+        kind = rng.choice(["type", "type", "integrity", "integrity", "missing-output", "unknown-destination-port"])
+        sp = rng.randrange(len(mods[s]["out"]))
+        st = mods[s]["out"][sp]
+        if kind == "integrity" and st[1] == 2:
+            kind = "type"
+        if kind == "unknown-destination-port":
+            c["forced"] = [[s, sp, d, len(mods[d]["in"]) + rng.randrange(2)]]
+            return "forced:" + kind
+        if kind == "type":
+            mods[d]["in"].append([rng.choice([t for t in range(7) if t != st[0]]), rng.randrange(3)])
+        elif kind == "integrity":
+            mods[d]["in"].append([st[0], rng.randint(st[1] + 1, 2)])
+        else:
+            mods[d]["in"].append([rng.randrange(7), rng.randrange(3)])
+            sp = len(mods[s]["out"]) + rng.randrange(2)
+        c["forced"] = [[s, sp, d, len(mods[d]["in"]) - 1]]
+        return "forced:" + kind
+
+    X_KEYS = ["names", "ctor", "defaults", "dup", "regbad", "early", "rereg", "regrev", "again", "pre", "extempty", "positional", "acc"]
+
+    def _widen(self, rng, c):
+        """other ways of using the same public API on the same diagram; all of them are transparent to the model (coq_case
+        ignores c["x"]), i.e. none of them may change any observation"""
+        for md in c["mods"]:
+            if md["h"] and md["h"][0] == "ret" and not md["h"][1] and rng.random() < 0.4:
+                md["h"] = ["none"]                       # handler returns None instead of {}
+        if rng.random() < 0.45:
+            return
+        n, r, x = len(c["mods"]), rng.random, {}
+        if r() < 0.4:
+            x["names"] = rng.choice([1, 2])              # other module / port names (shared between inputs and outputs)
+        if r() < 0.25:
+            x["ctor"] = True                             # WiringDiagram(modules={...}) instead of add_module
+        if r() < 0.25:
+            x["defaults"] = True                         # ModuleSpec(name) with the empty dict / set defaults
+        if r() < 0.3:
+            x["dup"] = [rng.randrange(n), rng.choice(["pre", "post"])]   # add_module under a taken name (before / after connects)
+        if r() < 0.25:
+            x["regbad"] = True                           # register_module for a module that is not in the diagram
+        if r() < 0.3:
+            x["early"] = True                            # executor built and handlers registered before the connects
+        if r() < 0.2:
+            x["rereg"] = True                            # every handler registered over a stale one
+        if r() < 0.3:
+            x["regrev"] = True                           # handlers registered in reverse module order
+        if r() < 0.45:
+            x["again"] = rng.choice([1, 1, 2, 2, 3])     # execute again: same executor (1; 3 = twice more) / a second executor (2)
+        if r() < 0.3 and c["ext"]:
+            x["pre"] = True                              # an execute() without external inputs first
+        if r() < 0.3 and not c["ext"]:
+            x["extempty"] = True                         # external_inputs={} instead of None
+        if r() < 0.3:
+            x["positional"] = True                       # execute(ext, enforce) positionally
+        if r() < 0.4:
+            x["acc"] = True                              # required_capabilities() before and between the connects
+        if x:
+            c["x"] = x
 
     def exhaustive_cases(self):
         pts = [[d, i] for d in range(7) for i in range(3)]
@@ -436,6 +529,19 @@ class C16(Check):
         CAP = [getattr(T.Capability, a) for a in CAP_ATTR]
         mods = case["mods"]
         n = len(mods)
+        x = case.get("x") or {}
+        # naming schemes (the model identifies modules and ports by insertion index, so names are transparent):
+        # 0: m<i> / i<p> / o<p>;  1: module names whose alphabetical order is the reverse of the insertion order, input and
+        # output ports share their names;  2: modules, input ports and output ports all drawn from the same names
+        scheme = x.get("names", 0)
+        if scheme == 0:
+            mn, inn, outn = (lambda i: f"m{i}"), (lambda p: f"i{p}"), (lambda p: f"o{p}")
+        elif scheme == 1:
+            mn, inn, outn = (lambda i: f"n{9 - i}"), (lambda p: f"p{p}"), (lambda p: f"p{p}")
+        else:
+            mn, inn, outn = (lambda i: f"p{i}"), (lambda p: f"p{7 - p}"), (lambda p: f"p{p}")
+        m_idx = {mn(i): i for i in range(n + 2)}
+        o_idx = {outn(p): p for p in range(8)}
 
         def pt(p):
             return W.PortType(DT[p[0]], IL[p[1]])
@@ -451,7 +557,7 @@ class C16(Check):
         def snapshot(inputs, nin):
             row, present = [], 0
             for p in range(nin):
-                t = inputs.get(f"i{p}")
+                t = inputs.get(inn(p))
                 if t is None:
                     row.append(None)
                 else:
@@ -465,20 +571,124 @@ class C16(Check):
                 o += [0, 0, 0, 0] if t is None else [1] + t
             return o
 
-        d = W.WiringDiagram()
-        for i, md in enumerate(mods):
-            d.add_module(W.ModuleSpec(name=f"m{i}",
-                                      inputs={f"i{p}": pt(x) for p, x in enumerate(md["in"])},
-                                      outputs={f"o{p}": pt(x) for p, x in enumerate(md["out"])},
-                                      capabilities={CAP[c] for c in md["caps"]}))
-        connects, ckinds, wires_ok = [], [], True
+        def spec(i, md):
+            kw = {}
+            if md["in"] or not x.get("defaults"):
+                kw["inputs"] = {inn(p): pt(v) for p, v in enumerate(md["in"])}
+            if md["out"] or not x.get("defaults"):
+                kw["outputs"] = {outn(p): pt(v) for p, v in enumerate(md["out"])}
+            if md["caps"] or not x.get("defaults"):
+                kw["capabilities"] = {CAP[c] for c in md["caps"]}
+            return W.ModuleSpec(mn(i), **kw) if x.get("defaults") else W.ModuleSpec(name=mn(i), **kw)
+
+        if x.get("ctor"):
+            d = W.WiringDiagram(modules={mn(i): spec(i, md) for i, md in enumerate(mods)})
+        else:
+            d = W.WiringDiagram()
+            for i, md in enumerate(mods):
+                d.add_module(spec(i, md))
+        originals = [d.modules[mn(i)] for i in range(n)]
+
+        def modules_intact():
+            return list(d.modules) == [mn(i) for i in range(n)] and all(d.modules[mn(i)] is originals[i] for i in range(n))
+
+        dup_res = []
+
+        def try_dup():
+            # add_module for a name that is taken, with a different specification (other ports, every capability)
+            i = x["dup"][0] % n
+            alt = W.ModuleSpec(name=mn(i), inputs={"zz": W.PortType(DT[(i + 3) % 7], IL[2])},
+                               outputs={"yy": W.PortType(DT[(i + 5) % 7], IL[0])}, capabilities=set(CAP))
+            try:
+                d.add_module(alt)
+                r = 0
+            except W.WiringError:
+                r = 1
+            except Exception:
+                r = 99
+            dup_res.append((i, r, modules_intact()))
+
+        rec = {"calls": [], "returned": []}
+        regbad = []
+
+        def mk(i, md):
+            nin = len(md["in"])
+
+            def h(inputs):
+                row, extra = snapshot(inputs, nin)
+                rec["calls"].append((i, row, extra))
+                if md["h"][0] == "raise":
+                    raise HandlerBoom(i)
+                if md["h"][0] == "none":        # a handler without a return statement: `handler(inputs) or {}`
+                    rec["returned"].append((i, []))
+                    return None
+                s = sum((p + 1) * t[2] for p, t in enumerate(row) if t is not None)
+                items = [(k, v) for k, v in md["h"][1]]
+                rec["returned"].append((i, items))
+                return {outn(k): mkval(v, s) for k, v in items}
+            return h
+
+        def stale(_inputs):
+            raise RuntimeError("a handler that was replaced by a later register_module was invoked")
+
+        def make_executor():
+            ex = R.DiagramExecutor(d)
+            regs = [(i, md) for i, md in enumerate(mods) if md["h"] is not None]
+            if x.get("regrev"):
+                regs.reverse()
+            for i, md in regs:
+                if x.get("rereg"):
+                    ex.register_module(mn(i), stale)
+                ex.register_module(mn(i), mk(i, md))
+            if x.get("regbad"):
+                try:
+                    ex.register_module(mn(n), stale)
+                    regbad.append(0)
+                except W.WiringError:
+                    regbad.append(1)
+                except Exception:
+                    regbad.append(99)
+            return ex
+
+        caps_seen = []
+
+        def read_caps():
+            caps_seen.append(sorted(CAP.index(c) for c in d.required_capabilities()))
+
+        if x.get("dup") and n and x["dup"][1] == "pre":
+            try_dup()
+        if x.get("acc"):
+            read_caps()
+        ex = make_executor() if x.get("early") else None
+        connects, ckinds, wires_ok, flow_q = [], [], True, []
         for (sm, sp, dm, dp) in case["wires"]:
             before = list(d.wires)
+            # read-only queries of the connection rule on the two port types (when both ports exist)
+            q = None
             try:
-                d.connect(f"m{sm}", f"o{sp}", f"m{dm}", f"i{dp}")
+                s_pt, d_pt = d.modules[mn(sm)].outputs[outn(sp)], d.modules[mn(dm)].inputs[inn(dp)]
+            except KeyError:
+                s_pt = d_pt = None
+            if s_pt is not None:
+                try:
+                    r = s_pt.can_flow_to(d_pt)
+                    cf = 1 if r is True else (0 if r is False else 9)
+                except Exception:
+                    cf = 99
+                try:
+                    s_pt.require_flow_to(d_pt)
+                    rf = 1
+                except W.WiringError:
+                    rf = 0
+                except Exception:
+                    rf = 99
+                q = [cf, rf]
+            flow_q.append(q)
+            try:
+                d.connect(mn(sm), outn(sp), mn(dm), inn(dp))
                 connects.append(0)
                 ckinds.append(0)
-                wires_ok &= d.wires == before + [W.Wire(f"m{sm}", f"o{sp}", f"m{dm}", f"i{dp}")]
+                wires_ok &= d.wires == before + [W.Wire(mn(sm), outn(sp), mn(dm), inn(dp))]
             except W.WiringError as e:
                 connects.append(1)
                 ckinds.append(_msg_code(str(e), CONNECT_MSG, 9))
@@ -486,65 +696,87 @@ class C16(Check):
             except Exception:
                 connects.append(99)
                 ckinds.append(99)
-        caps = sorted(CAP.index(c) for c in d.required_capabilities())
+            if x.get("acc"):
+                read_caps()
+        for (sm, sp, dm, dp) in case.get("forced") or []:
+            d.wires.append(W.Wire(mn(sm), outn(sp), mn(dm), inn(dp)))      # bypassing connect: see monitor
+        if x.get("dup") and n and x["dup"][1] == "post":
+            try_dup()
+        read_caps()
+        caps = caps_seen[-1]
+        wires_final = list(d.wires)
+        if ex is None:
+            ex = make_executor()
 
-        calls, returned = [], []
-        ex = R.DiagramExecutor(d)
-        for i, md in enumerate(mods):
-            if md["h"] is None:
-                continue
+        def execute_once(ex, ext_case):
+            rec["calls"], rec["returned"] = [], []
+            ext = {mn(m): {inn(p): mkval(v) for p, v in ps} for m, ps in ext_case}
+            arg = ext if (ext or x.get("extempty")) else None
+            report, code, kind = None, 0, 0
+            try:
+                if x.get("positional"):
+                    report = _guarded(lambda: ex.execute(arg, case["enforce"]), 1.0)
+                else:
+                    report = _guarded(lambda: ex.execute(arg, enforce_static_checks=case["enforce"]), 1.0)
+            except W.WiringError as e:
+                code, kind = 1, _msg_code(str(e), EXEC_MSG, 16)
+            except HandlerBoom:
+                code = kind = 20
+            except common.Hang:
+                raise
+            except KeyError:
+                code = kind = 30
+            except Exception:
+                code = kind = 40
+            calls, returned = rec["calls"], rec["returned"]
+            tail = [[code], [len(calls)]]
+            for (i, row, _extra) in calls:
+                tail.append([i] + row_obs(row))
+            tr = {"code": code, "kind": kind, "calls": calls, "returned": returned, "order": None, "runs": None}
+            if report is not None:
+                order = [m_idx[name] for name in report.execution_order]
+                tail.append(order)
+                runs = []
+                for name in report.execution_order:
+                    m = m_idx[name]
+                    me = report.modules[name]
+                    row, extra = snapshot(me.inputs, len(mods[m]["in"]))
+                    outs = [(o_idx[k], tv_codes(me.outputs[k])) for k in sorted(me.outputs, key=lambda k: o_idx[k])]
+                    o = [m, len(me.inputs)] + row_obs(row)
+                    for _k, t in outs:
+                        o += t
+                    tail.append(o)
+                    runs.append((m, row, extra, outs))
+                tr["order"], tr["runs"] = order, runs
+                tr["n_report_modules"] = len(report.modules)
+            return tail, tr
 
-            def mk(i, md):
-                nin = len(md["in"])
-
-                def h(inputs):
-                    row, extra = snapshot(inputs, nin)
-                    calls.append((i, row, extra))
-                    if md["h"][0] == "raise":
-                        raise HandlerBoom(i)
-                    s = sum((p + 1) * t[2] for p, t in enumerate(row) if t is not None)
-                    items = [(k, v) for k, v in md["h"][1]]
-                    returned.append((i, items))
-                    return {f"o{k}": mkval(v, s) for k, v in items}
-                return h
-            ex.register_module(f"m{i}", mk(i, md))
-        ext = {f"m{m}": {f"i{p}": mkval(v) for p, v in ps} for m, ps in case["ext"]}
-        report, code, kind = None, 0, 0
-        try:
-            report = common.call_with_watchdog(_self_destructing(
-                lambda: ex.execute(ext if ext else None, enforce_static_checks=case["enforce"]), 1.5), 1.0)
-        except W.WiringError as e:
-            code, kind = 1, _msg_code(str(e), EXEC_MSG, 16)
-        except HandlerBoom:
-            code = kind = 20
-        except common.Hang:
-            raise
-        except KeyError:
-            code = kind = 30
-        except Exception:
-            code = kind = 40
-
-        obs = [connects, caps, [code], [len(calls)]]
-        for (i, row, _extra) in calls:
-            obs.append([i] + row_obs(row))
-        trace = {"connects": connects, "connect_kinds": ckinds, "wires_ok": wires_ok, "caps": caps, "code": code, "kind": kind,
-                 "calls": calls, "returned": returned, "order": None, "runs": None}
-        if report is not None:
-            order = [int(name[1:]) for name in report.execution_order]
-            obs.append(order)
-            runs = []
-            for name in report.execution_order:
-                m = int(name[1:])
-                me = report.modules[name]
-                row, extra = snapshot(me.inputs, len(mods[m]["in"]))
-                outs = [(int(k[1:]), tv_codes(me.outputs[k])) for k in sorted(me.outputs, key=lambda k: int(k[1:]))]
-                o = [m, len(me.inputs)] + row_obs(row)
-                for _k, t in outs:
-                    o += t
-                obs.append(o)
-                runs.append((m, row, extra, outs))
-            trace["order"], trace["runs"] = order, runs
-            trace["n_report_modules"] = len(report.modules)
+        more = []
+        if x.get("pre") and case["ext"]:
+            # an execution without the external inputs first (usually rejected: missing sources); it must not leak into the next
+            _t, tr0 = execute_once(ex, [])
+            more.append(("a preceding execute() without external inputs", [], tr0))
+        tail, main = execute_once(ex, case["ext"])
+        again = x.get("again", 0)
+        deviating = None
+        for k in range(2 if again == 3 else (1 if again else 0)):
+            ex2 = ex if again in (1, 3) else make_executor()
+            t2, tr2 = execute_once(ex2, case["ext"])
+            what = ("a repeated execute() on the same executor" if again in (1, 3)
+                    else "execute() of a second executor over the same diagram")
+            more.append((what, case["ext"], tr2))
+            if t2 != tail and deviating is None:
+                deviating = t2
+        stable = (modules_intact() and list(d.wires) == wires_final
+                  and sorted(CAP.index(c) for c in d.required_capabilities()) == caps)
+        # the model's observation is that of the main execution; a repeated execution that observes something else is reported
+        # in its place (marked), so that the deviation from the (functional) model surfaces as a correspondence mismatch
+        obs = [connects, caps] + (tail if deviating is None else deviating + [[-777]])
+        if not stable:      # building is over before the first execute(): executing must not alter the diagram
+            obs.append([-778])
+        trace = {"connects": connects, "connect_kinds": ckinds, "wires_ok": wires_ok, "caps": caps, "caps_seen": caps_seen,
+                 "flow_q": flow_q, "dup": dup_res, "regbad": regbad, "stable": stable, "more": more}
+        trace.update(main)
         return obs, trace
 
     # -- model input -------------------------------------------------------
@@ -562,13 +794,16 @@ class C16(Check):
                 return "HSNone"
             if h[0] == "raise":
                 return "HSRaise"
+            if h[0] == "none":          # returns None: `handler(inputs) or {}` makes it the empty dict
+                return "(HSRet [])"
             return "(HSRet " + clist([ctuple(cnat(k), cval(v)) for k, v in h[1]]) + ")"
 
         cms = clist([ctuple(clist([cpt(p) for p in md["in"]]), clist([cpt(p) for p in md["out"]]),
                             clist([CAPN[c] for c in md["caps"]]), ch(md["h"])) for md in case["mods"]])
         ws = clist([ctuple(*[cnat(x) for x in w]) for w in case["wires"]])
         ext = clist([ctuple(cnat(m), clist([ctuple(cnat(p), cval(v)) for p, v in ps])) for m, ps in case["ext"]])
-        return "(" + ctuple(cms, ws, ext, cbool(case["enforce"])) + " : case)"
+        forced = clist([ctuple(*[cnat(v) for v in w]) for w in case.get("forced") or []])
+        return "(" + ctuple(cms, ws, forced, ext, cbool(case["enforce"])) + " : case)"
 
     # -- the property, on the implementation's trace ------------------------
     def monitor(self, case, obs, trace):
@@ -581,7 +816,7 @@ class C16(Check):
         # 1. a connection is accepted exactly when types are equal and source integrity >= destination integrity
         acc = accepted_wires(case)
         acc_set = set(acc)
-        for w, r in zip(case["wires"], trace["connects"]):
+        for w, r, q in zip(case["wires"], trace["connects"], trace.get("flow_q") or [None] * len(case["wires"])):
             w = tuple(w)
             known = w[0] < n and w[1] < len(mods[w[0]]["out"]) and w[2] < n and w[3] < len(mods[w[2]]["in"])
             if r == 0 and w not in acc_set:
@@ -589,21 +824,59 @@ class C16(Check):
                 return Violation("C16/connect-accepts-ill-typed", f"connect{w} accepted although the ports do not match ({why}, [dtype, integrity] codes)")
             if r != 0 and w in acc_set:
                 return Violation("C16/connect-rejects-well-typed", f"connect{w} raised although data types are equal and source integrity >= destination integrity")
+            # the same rule asked directly of the two port types (PortType.can_flow_to / require_flow_to)
+            if known and q is not None:
+                want = 1 if w in acc_set else 0
+                if q[0] != want:
+                    return Violation("C16/can-flow-to-disagrees",
+                                     f"PortType{mods[w[0]]['out'][w[1]]}.can_flow_to(PortType{mods[w[2]]['in'][w[3]]}) answered "
+                                     f"{ {1: True, 0: False}.get(q[0], 'neither True nor False') } ([dtype, integrity] codes)")
+                if q[1] != want:
+                    return Violation("C16/require-flow-to-disagrees",
+                                     f"PortType{mods[w[0]]['out'][w[1]]}.require_flow_to(PortType{mods[w[2]]['in'][w[3]]}) "
+                                     f"{ {1: 'did not raise', 0: 'raised WiringError'}.get(q[1], 'raised something else than WiringError') }")
         if not trace["wires_ok"]:
             return Violation("C16/connect-wire-list", "diagram.wires is not exactly the list of accepted connections")
-        # 6. required capabilities are the union over modules
-        if trace["caps"] != sorted({c for md in mods for c in md["caps"]}):
-            return Violation("C16/capabilities-not-union", f"required_capabilities() = {trace['caps']}")
+        # a module name denotes one module: a second add_module under a taken name must not replace the module the
+        # accepted connections were checked against
+        for (i, r, intact) in trace.get("dup") or []:
+            if not intact:
+                return Violation("C16/duplicate-module-replaced",
+                                 f"add_module with the name of module {i} and other ports changed the diagram's modules "
+                                 f"({'no exception' if r == 0 else 'WiringError' if r == 1 else 'another exception'})")
+        # 6. required capabilities are the union over modules (whenever asked: before, between and after the connects)
+        union = sorted({c for md in mods for c in md["caps"]})
+        for seen in trace.get("caps_seen") or [trace["caps"]]:
+            if seen != union:
+                return Violation("C16/capabilities-not-union", f"required_capabilities() = {seen}, union over the modules = {union}")
+        if case.get("forced"):
+            # wires were put into diagram.wires without connect: not "an accepted diagram", the property says nothing about
+            # its executions (with enforce_static_checks=False the code delivers along such wires unchecked, by design).
+            # These cases only tie the executor's per-wire runtime checks to the model.
+            return None
+        v = self._monitor_execution(case, case["ext"], trace, acc, "")
+        if v:
+            return v
+        for (what, ext, tr) in trace.get("more") or []:
+            v = self._monitor_execution(case, ext, tr, acc, " [" + what + "]")
+            if v:
+                return v
+        return None
+
+    def _monitor_execution(self, case, ext, trace, acc, where):
+        """the property's conjuncts about ONE execution (it speaks of every execution of an accepted diagram)"""
+        mods = case["mods"]
+        n = len(mods)
         code, kind = trace["code"], trace["kind"]
         wiring_error = code == 1
 
         def row_bad(m, row, extra):
             if extra or len(row) != len(mods[m]["in"]) or any(t is None for t in row):
-                return Violation("C16/ran-with-missing-input", f"module {m} ran with inputs {row} (ports {mods[m]['in']})")
+                return Violation("C16/ran-with-missing-input", f"module {m} ran with inputs {row} (ports {mods[m]['in']}){where}")
             for p, t in enumerate(row):
                 pt = mods[m]["in"][p]
                 if t[0] != pt[0] or t[1] < pt[1]:
-                    return Violation("C16/delivered-ill-typed", f"module {m} input port {p} {pt} received a value labelled {t[:2]}")
+                    return Violation("C16/delivered-ill-typed", f"module {m} input port {p} {pt} received a value labelled {t[:2]}{where}")
             return None
         # 2./5c. every input row a handler saw is complete and typed, whatever happened afterwards
         counts = {}
@@ -613,19 +886,19 @@ class C16(Check):
             if v:
                 return v
         if any(k > 1 for k in counts.values()):
-            return Violation("C16/module-ran-twice", f"handler invocation counts {counts}")
+            return Violation("C16/module-ran-twice", f"handler invocation counts {counts}{where}")
         # 3. handler outputs that contradict the declared port are rejected
         for (m, items) in trace["returned"]:
             for k, v in items:
                 if k < len(mods[m]["out"]) and v[0] == "lab" and [v[1], v[2]] != mods[m]["out"][k]:
                     if not wiring_error:
                         return Violation("C16/mislabelled-output-accepted",
-                                         f"module {m} returned {v[1:3]} on output port {k} declared {mods[m]['out'][k]} and execute ended with {ERRNAME.get(kind, kind)}")
+                                         f"module {m} returned {v[1:3]} on output port {k} declared {mods[m]['out'][k]} and execute ended with {ERRNAME.get(kind, kind)}{where}")
         # 5. unschedulable diagrams raise a wiring error
         wired = {}
         for (_sm, _sp, dm, dp) in acc:
             wired[(dm, dp)] = wired.get((dm, dp), 0) + 1
-        given = {(m, p) for m, ps in case["ext"] for p, _v in ps}
+        given = {(m, p) for m, ps in ext for p, _v in ps}
         dup = [k for k, c in wired.items() if c > 1]
         missing = [(m, p) for m in range(n) for p in range(len(mods[m]["in"])) if (m, p) not in wired and (m, p) not in given]
         nohandler = [m for m in range(n) if mods[m]["out"] and mods[m]["h"] is None]
@@ -634,29 +907,29 @@ class C16(Check):
             if not (wiring_error or (code == 20 and raised)):
                 return Violation("C16/unschedulable-not-rejected",
                                  f"duplicate sources {dup}, missing sources {missing}, missing handlers {nohandler}: execute ended with "
-                                 f"{ERRNAME.get(kind, kind)} after {len(trace['calls'])} handler calls")
+                                 f"{ERRNAME.get(kind, kind)} after {len(trace['calls'])} handler calls{where}")
         if has_cycle(n, acc):
             if not (wiring_error or (code == 20 and raised)):
-                return Violation("C16/cycle-not-rejected", f"cyclic diagram: execute ended with {ERRNAME.get(kind, kind)}")
+                return Violation("C16/cycle-not-rejected", f"cyclic diagram: execute ended with {ERRNAME.get(kind, kind)}{where}")
         # 2./4. a successful execution
         if code == 0:
             order = trace["order"]
             if sorted(order) != list(range(n)) or trace["n_report_modules"] != n:
-                return Violation("C16/not-each-module-once", f"execution_order {order} for {n} modules")
+                return Violation("C16/not-each-module-once", f"execution_order {order} for {n} modules{where}")
             pos = {m: i for i, m in enumerate(order)}
             for (sm, _sp, dm, _dp) in acc:
                 if pos[sm] >= pos[dm]:
-                    return Violation("C16/not-topological", f"module {dm} ran before its source {sm}: {order}")
+                    return Violation("C16/not-topological", f"module {dm} ran before its source {sm}: {order}{where}")
             for m in range(n):
                 if counts.get(m, 0) != (1 if mods[m]["h"] is not None else 0):
-                    return Violation("C16/not-each-module-once", f"handler of module {m} invoked {counts.get(m, 0)} times")
+                    return Violation("C16/not-each-module-once", f"handler of module {m} invoked {counts.get(m, 0)} times{where}")
             for (m, row, extra, outs) in trace["runs"]:
                 v = row_bad(m, row, extra)
                 if v:
                     return v
                 for k, t in outs:
                     if k >= len(mods[m]["out"]) or t[:2] != mods[m]["out"][k]:
-                        return Violation("C16/mislabelled-output-accepted", f"module {m} output {k} recorded with label {t[:2]}")
+                        return Violation("C16/mislabelled-output-accepted", f"module {m} output {k} recorded with label {t[:2]}{where}")
         return None
 
     def nontrivial(self, case, obs, trace):
@@ -664,6 +937,18 @@ class C16(Check):
 
     def classify(self, case, obs, trace):
         ks = list(case.get("tags", [])) + [f"modules={len(case['mods'])}"]
+        xs = case.get("x") or {}
+        ks += [f"api:{k}" + (f"={xs[k]}" if k in ("names", "again") else "") for k in self.X_KEYS if xs.get(k)] or ["api:plain"]
+        if case.get("forced"):
+            ks.append("wires-forced-past-connect(outside-property,model-tie-only)")
+        if any(md["h"] == ["none"] for md in case["mods"]):
+            ks.append("handler-returns-None")
+        for (_i, r, _ok) in trace.get("dup") or []:
+            ks.append("duplicate-add_module=" + {0: "accepted", 1: "WiringError"}.get(r, "other-exception"))
+        for r in trace.get("regbad") or []:
+            ks.append("register-unknown-module=" + {0: "accepted", 1: "WiringError"}.get(r, "other-exception"))
+        if trace.get("more"):
+            ks.append("executions=" + str(1 + len(trace["more"])))
         if "code" in trace:
             ks.append("execute=" + ERRNAME.get(trace["kind"], str(trace["kind"])))
             na = sum(1 for r in trace["connects"] if r == 0)
@@ -680,6 +965,13 @@ class C16(Check):
         c = copy.deepcopy(case)
         c["wires"] = common.shrink_list(c["wires"], lambda ws: pred({**c, "wires": ws}))
         c["ext"] = common.shrink_list(c["ext"], lambda es: pred({**c, "ext": es}))
+        for k in list(c.get("x") or {}):
+            x2 = {k2: v for k2, v in c["x"].items() if k2 != k}
+            try:
+                if pred({**c, "x": x2}):
+                    c["x"] = x2
+            except Exception:
+                pass
         return c
 
 
